@@ -120,6 +120,47 @@ def genuine(ctx, n):
                 return
 
 
+def one_record_per_item(ctx, n):
+    """a rule of k plain instruction items (no groups, no `times`) - operand names in every notation, the `NNh`
+    hexadecimal one included - covers exactly k records per match: no item spans two instructions"""
+    g, rep = ctx.g, ctx.report
+    for _ in range(n):
+        k = g.int(1, 2)
+        pat, insts, addr = [], [], 0x401000
+        for j in range(k):
+            m = g.pick(["mov", "add", "cmp", "and"])
+            v = g.pick(["10", "1f", "8", "ff", "20"])
+            name = g.pick([v + "h", v + "h", "0x" + v, v])
+            other = g.pick(["%eax", "%rbx", "%ecx"])
+            shape = g.int(0, 2)
+            pat.append({m: [name] if shape == 0 else [name, other] if shape == 1 else [name, g.pick(["eax", "rbx", "ecx", "%e"])]})
+            insts.append(("%x" % addr, m, ["$0x" + v, other if shape == 1 else g.pick(["%eax", "%rbx", "%ecx"])]))
+            addr += 5
+        tail = [(g.pick(["ret", "nop", "leave"]), []), ("mov", ["$0x10", "%edx"]), ("mov", ["%rbx", "%rax"]), ("nop", [])]
+        for m, ops in tail[: g.int(1, 4)]:
+            insts.append(("%x" % addr, m, ops))
+            addr += 2
+        if g.chance(0.5):
+            insts = insts + [(("%x" % (int(a, 16) + 0x100)), m, o) for a, m, o in insts]
+        doc = {"pattern": pat}
+        text = gen.render_listing(insts, g)
+        texts = impl.run_op(ctx.scratch, doc, text, mode="all", ret="list")
+        first = impl.run_op(ctx.scratch, doc, text, mode="first", ret="list")
+        case = {"rule": doc, "listing": text}
+        ok = texts[0] == "ok" and first[0] == "ok"
+        rep.case(case, ok and bool(texts[1]), tags=["one-record-per-item", "k=%d" % k])
+        if not ok:
+            continue
+        for t in list(texts[1]) + list(first[1]):
+            dec = gen.decode_stream(t)
+            if not dec or len(dec) != k:
+                rep.violate("item-spans-more-than-one-instruction", case, {"records_per_match": k},
+                            {"match": t, "records": None if not dec else len(dec)}, model_agrees_with_spec=None)
+                break
+        if rep.has_new() and ctx.tier == "thorough":
+            return
+
+
 def leading_rule(g):
     doc = gen_rules.rule(g, FEATS, depth=2)
     if g.chance(0.5):
@@ -143,3 +184,4 @@ def run(ctx, factor):
     run_cases(ctx, factor, FEATS, 300, 8000, scan=True, rule_fn=leading_rule, modes=("bool", "all", "first", "alladdr"),
               tagger=blob_tagger(["$not", "$or", "&i", "$deref", "times"]), extra_check=aligned)
     genuine(ctx, ctx.budget(80, 3000) * factor)
+    one_record_per_item(ctx, ctx.budget(40, 1500) * factor)
